@@ -338,7 +338,7 @@ def drv_json(case):
         pts.append({"asg": proj.pairs_int(asg, tok), "ev_orig": proj.bounds(m.evaluate(dict(I1))),
                     "ev_back": proj.bounds(back.evaluate(dict(I1)))})
     e = {"op": "json", "model": pm, "back": proj.node(back, tok), "jdoc": proj.jdoc(j, tok), "points": pts,
-         "is_cfg": case["recipe"]["c"] == "Cfg", "after": proj.node(m, tok)}
+         "is_cfg": case["recipe"]["c"] == "Cfg", "after": proj.node(m, tok), "recipe": B.recipe_tokens(case["recipe"], tok)}
     if e["is_cfg"]:
         e["cfg_orig"] = _cfg_part(m, tok)
         e["cfg_back"] = _cfg_part(back, tok)
@@ -409,5 +409,5 @@ def drv_b64(case):
         Q1[0, 0] += 1
         if Q1.default_prio_vector is not None and len(Q1.default_prio_vector): Q1.default_prio_vector[0] = 7
         Q2 = pnd.ge_polyhedron_config.from_b64(sp)
-        out.append({"op": "b64poly", "before": pP, "after": pQ1, "again": proj.cfgpoly(Q2, tok), "sel_before": sP, "sel_after": sQ})
+        out.append({"op": "b64poly", "p_before": pP, "p_after": pQ1, "p_again": proj.cfgpoly(Q2, tok), "sel_before": sP, "sel_after": sQ})
     return out
